@@ -6,10 +6,7 @@ from .readerlib import both_modes, dump_dict
 ID = 'C16'
 TARGETS = ['theories/Properties/C16.vo']
 THEOREMS = core.theorems_of(ID)
-LEVEL = ('hand model of the UBJSON subset reader/writer (Model/Ubjson.v); proved: read(write t) = t for every well-formed tree (strings <= 255 bytes of UTF-8, '
-         'i32 integers, nested maps with distinct keys, nesting within the reader\'s limit), insertion order kept, so writing what was read reproduces the bytes; '
-         'serde_json preserve_order is read from Cargo.toml; model tied to the code by differential runs on random trees embedded in replays; the JSON copy in '
-         '.slpp goes through serde_json (library: exercised, not proved)')
+LEVEL = ("hand model of the UBJSON subset reader/writer (Model/Ubjson.v); proved (Properties/C16.v): read(write t) = t for EVERY well-formed tree (strings <= 255 bytes of UTF-8, i32 integers, nested maps with distinct keys, nesting within the reader's regenerated limit), order kept, truncated blocks rejected; in a whole file the parsed metadata is the replay's (present or absent); the JSON rendering has a left inverse (tree and key order recoverable); serde_json preserve_order is read from Cargo.toml; model tied to the code by differential runs on random trees embedded in replays; the serde_json text layer of the .slpp copy is exercised, not proved")
 
 
 def rand_tree(rng, depth=0, maxdepth=4):
